@@ -155,6 +155,7 @@ type checkRun struct {
 	abstracted map[string]bool
 	genErrors  []string
 	contracts  map[string]bool
+	restricted []map[string]string
 }
 
 func (cr *checkRun) generate(config string, tags string) {
@@ -316,29 +317,41 @@ func cmdCheck(args []string) {
 		seed, _ = strconv.Atoi(s)
 	}
 	t0 := time.Now()
-	cr := &checkRun{prop: *prop, tier: *tier, repo: *repo, verifDir: *verif, timeout: 20, oblExec: map[*Obl]*Exec{},
+	cr := &checkRun{prop: *prop, tier: *tier, repo: *repo, verifDir: *verif, timeout: 45, oblExec: map[*Obl]*Exec{},
 		trusted: map[string]bool{}, abstracted: map[string]bool{}, contracts: map[string]bool{}}
 	if *tier == "thorough" {
-		cr.timeout = 60
+		cr.timeout = 120
 		cr.confirm = true
 	}
 	cr.generate("PROD", "verif")
 	if *tier == "thorough" {
 		cr.generate("TEST", "verif,test")
 	}
-	disagreements := Discharge(cr.obls, cr.timeout, cr.confirm, runtime.NumCPU())
-
 	kfs, fixed, err := readKnownFindings(filepath.Join(*verif, "known-findings.txt"))
 	if err != nil {
 		fmt.Println("cannot read known-findings.txt:", err)
 		os.Exit(2)
 	}
+	// obligations with a recorded finding are expected to stay undecided or
+	// fail without the class restriction: do not spend the full timeout there
+	if *tier == "quick" {
+		for _, o := range cr.obls {
+			base := stripConfig(o.Name)
+			for _, kf := range kfs {
+				if kf.Prop == *prop && (kf.Obligation == base || (strings.HasSuffix(kf.Obligation, "*") && strings.HasPrefix(base, strings.TrimSuffix(kf.Obligation, "*")))) {
+					o.TimeoutS = 12
+				}
+			}
+		}
+	}
+	disagreements := Discharge(cr.obls, cr.timeout, cr.confirm, runtime.NumCPU())
 	os.MkdirAll(filepath.Join(*verif, "replays"), 0755)
 	os.MkdirAll(filepath.Join(*verif, "evidence"), 0755)
 
 	violations := 0
 	var lines []string
 	knownMatched := map[string]bool{}
+	var restricted []map[string]string
 	discharged := 0
 	solverCount := map[string]int{}
 	solverTime := map[string]float64{}
@@ -379,6 +392,14 @@ func cmdCheck(args []string) {
 				}
 			}
 			if matched {
+				// what was proved is the obligation restricted to inputs outside the
+				// recorded class (that query is unsat): counted as discharged, and
+				// listed explicitly in the evidence
+				discharged++
+				restricted = append(restricted, map[string]string{"obligation": o.Name, "excluded_input_class": kf.Class, "finding": kf.What})
+				if fr := perFunc[cfg+"|"+o.Func]; fr != nil {
+					fr.Discharged++
+				}
 				key := kf.Prop + "|" + kf.Obligation + "|" + kf.Class
 				if !knownMatched[key] {
 					knownMatched[key] = true
@@ -505,6 +526,7 @@ func cmdCheck(args []string) {
 	fmt.Printf("property %s tier %s: %d obligations, %d discharged, %d known findings, %d violations, %.1fs\n", *prop, *tier, len(cr.obls), discharged, len(knownMatched), violations, wall)
 
 	if !*noEvidence {
+		cr.restricted = restricted
 		writeEvidence(cr, *prop, *tier, seed, discharged, violations, disagreements, solverCount, solverTime, vacuity, knownMatched, fixed, wall)
 	}
 	if violations > 0 {
@@ -624,9 +646,10 @@ func writeEvidence(cr *checkRun, prop, tier string, seed, discharged, violations
 		"vacuity":                  vacuity,
 		"samples":                  samples,
 		"known_findings_matched":   kn,
-		"fixed_findings":           fxs,
-		"machine_arithmetic":       "fixed-width bit-vectors (int = 64 bit); wrap-around modelled, never treated as mathematical",
-		"configs":                  map[string]bool{"PROD(-tags verif)": true, "TEST(-tags verif,test)": tier == "thorough"},
+		"discharged_only_outside_known_finding_class": cr.restricted,
+		"fixed_findings":     fxs,
+		"machine_arithmetic": "fixed-width bit-vectors (int = 64 bit); wrap-around modelled, never treated as mathematical",
+		"configs":            map[string]bool{"PROD(-tags verif)": true, "TEST(-tags verif,test)": tier == "thorough"},
 	}
 	ev := map[string]interface{}{
 		"property_id": prop,
